@@ -1,0 +1,11 @@
+//go:build verif
+// +build verif
+
+package messages
+
+// VerifHook is called at the linearization points of Consume (build tag "verif" only):
+// "consume.cb.ret" after the callback returned, "consume.persisted" after the offset was
+// written to the state file, "consume.truncated" after the truncation check.
+var VerifHook = func(point string, offset uint64) {}
+
+func vhook(point string, offset uint64) { VerifHook(point, offset) }
